@@ -211,10 +211,10 @@ namespace awkward {
       else if (fmt == std::string("Zg")) {
         return dtype::complex256;
       }
-      else if (fmt == std::string("M")) {
+      else if (fmt == std::string("M")  ||  fmt.rfind("M8", 0) == 0) {
         return dtype::datetime64;
       }
-      else if (fmt == std::string("m")) {
+      else if (fmt == std::string("m")  ||  fmt.rfind("m8", 0) == 0) {
         return dtype::timedelta64;
       }
       else {
